@@ -53,6 +53,8 @@ def evaluate(chk, pid, cases, gens, gos, models, stats, samples):
                                     "go": {k2: go.get(k2) for k2 in ("outcome", "errKind", "errPayload", "postings")}})
         if o.get("apiDiff"):
             failures.append((c, go, m, ["the public API (numscript.Parse(..).Run / RunWithFeatureFlags) does not return what the interpreter computes: %s" % "; ".join(o["apiDiff"])[:600]]))
+        if o.get("altDiff"):
+            failures.append((c, go, m, ["a second run of the same parse result with other variable values / balances differs from a run of a fresh parse with them: %s" % o["altDiff"][:600]]))
         if o.get("prefixMismatch"):
             failures.append((c, go, m, ["postings of a prefix of the script differ from the prefix of the postings"]))
         if m is not None:
@@ -368,9 +370,37 @@ def extra_C11(chk, cases, gens, gos, stats):
                 # (an earlier declaration may fail first with its own error; what must not happen is a result)
                 if off["outcome"] == "ok":
                     fails.append((sub[2 * i + 1], off, None, ["overdraft() ran without its feature flag"]))
-    if chk.tier == "thorough":
-        f3 = concurrent_runs(chk, cases, gos, stats)
-        fails += f3
+    # several malformed / missing variable values at once, many runs: which failure is reported must not depend on
+    # the order in which a map happens to be walked (the model reports the first declaration that fails)
+    import random as _random
+    rng = _random.Random("C11multi-%d" % chk.seed)
+    msub = []
+    for c in cases:
+        if len(c.get("vars") or {}) < 2 or len(msub) >= chk.size(300, 3000):
+            continue
+        v = dict(c["vars"])
+        for k in rng.sample(sorted(v), rng.randrange(2, min(6, len(v)) + 1)):
+            if rng.random() < 0.2:
+                del v[k]
+            else:
+                v[k] = rng.choice(JUNK)
+        msub.append(dict(c, id=len(msub), vars=v, repeat=12, perStmt=False))
+    mouts = runner.run_go([P_strip(c) for c in msub]) if msub else []
+    mmods = P.run_model(msub, mouts) if msub else []
+    stats["multi_bad_variable_runs"] = len(msub) * 12
+    for c, o, m in zip(msub, mouts, mmods):
+        if "go" not in o:
+            continue
+        if o.get("repeatDiffs"):
+            fails.append((c, o["go"], m, ["repeated runs with the same (malformed) variable values differ: %s" % o["repeatDiffs"][:3]]))
+        elif m is not None and m.get("outcome") not in ("drivererror", "drivercrash"):
+            stats["model_comparisons"] += 1
+            d = runner.diff_exec(o["go"], m, ["errKind", "errPayload"])
+            if d:
+                dis.append((c, o["go"], m, d))
+    # schedule exploration on a -race build: every tier (a smaller sample in the quick one)
+    f3 = concurrent_runs(chk, cases, gos, stats)
+    fails += f3
     return fails, dis
 
 
@@ -383,7 +413,7 @@ def concurrent_runs(chk, cases, gos, stats):
     except runner.BuildFailure as e:
         stats["race_build"] = "failed: " + str(e)[:200]
         return fails
-    sub = [dict(c, id=i, op="concurrent", store="static", goroutines=8, perStmt=False) for i, c in enumerate(cases[:3000])]
+    sub = [dict(c, id=i, op="concurrent", store="static", goroutines=8, perStmt=False) for i, c in enumerate(cases[:chk.size(400, 3000)])]
     outs = runner.run_go(sub, binary=racebin)
     stats["concurrent_runs"] = len(sub) * 8
     for c, o in zip(sub, outs):
